@@ -105,7 +105,7 @@ def family(rng, quick):
         if g:
             gs.append(g)
     # through a union of P1/P2
-    trip = [(a, b, c, tb, tc) for a in T for b in T for c in T for tb in ("P0", "U3", "P2") for tc in ("P0", "P1", "U3")]
+    trip = [(a, b, c, tb, tc) for a in T for b in T for c in T for tb in ("P0", "U3", "P2", "P1") for tc in ("P0", "P1", "U3", "P2")]
     rng.shuffle(trip)
     for (a, b, c, tb, tc) in trip[:(500 if quick else 6000)]:
         g = mk("u%d" % len(gs), [(a, "U3"), (b, tb), (c, tc)], union=True)
@@ -129,11 +129,24 @@ def run(pid, tier, args):
             raise Infra("MC_LeftRec: %s" % (res.violation or res.error))
         v.add_tlc(res)
         spec = {f[0]: f[1] for f in vlib.parse_lines(res.lines, "LR")}
-        out = vlib.vh(vhbin, ["build-run", cp], timeout=3000)
+        # Build runs in a child process; a fatal crash (stack overflow) is attributed to the grammar being built
         real = {}
-        for line in out.splitlines():
-            p = line.split("\t", 1)
-            real[p[0]] = p[1]
+        start = 0
+        for _attempt in range(12):
+            pr = subprocess.run([vhbin, "build-run", cp, str(start)], stdout=subprocess.PIPE, stderr=subprocess.PIPE, env=dict(vlib.GOENV, VH_MAXSTACK=str(256 << 20)), timeout=3000)
+            lines_ = pr.stdout.decode("utf8", "replace").splitlines()
+            for line in lines_:
+                p = line.split("\t", 1)
+                if len(p) == 2:
+                    real[p[0]] = p[1]
+            if pr.returncode == 0:
+                break
+            done_n = start + len(lines_)
+            if done_n >= len(gs):
+                break
+            real[gs[done_n]["id"]] = "panic fatal: process died (%s)" % pr.stderr.decode("utf8", "replace")[:120].replace("\n", " ")
+            start = done_n + 1
+        # (after 12 crashes the remaining grammars are left unjudged; the crashes found are reported)
         nlr = nno = 0
         accepted = []
         shown = {}
@@ -145,6 +158,8 @@ def run(pid, tier, args):
                 nlr += 1
             else:
                 nno += 1
+            if r == "":
+                continue
             bad = None
             if r.startswith(("panic", "hang")):
                 bad = "Build %s" % r[:120]
